@@ -48,6 +48,10 @@ CLAIMED = {
     text="specs/ViewAssign.tla extends the view state machine with one assignment-like operation on the view reached by every program (depth <= 2): from an array, a const view, views with rotated / inner-transposed / padded memory layouts (lvalue and rvalue), another element type, (nested) std::vector ranges, initializer lists, fill(value_type), std::fill on elements(), elements() assignment, swap with a view of different and of identical layout, and moving from the view; it prescribes the whole store afterwards (Exact: cell of position k holds source value k; Frame: every other cell unchanged). The destination root is an array_ref into a guarded buffer; after the real operation the complete buffer, the guards, the source and the second view's frame are compared with the prescription.",
     note="bounded: roots D<=3, extents 0..3, destination programs of <= 2 operations (broadcast excluded: it aliases cells); D=0 destinations are not covered; sources always have the destination's extents (mismatches belong to C20).",
     ref="DESIGN.md section 5 C05"),
+ "C03": dict(
+    text="specs/AlgGen.tla enumerates view x range kind (begin()/end() with proxy sub-view items, or elements()) x algorithm (all 20 of the property plus copy-from) x argument, prescribing the item cells of each range from the documented view semantics; the replayer runs the real std algorithm on pseudo-random data with duplicates and records the whole storage and the auxiliary range before and after plus the returned position; the TLA+ monitor specs/Algorithms.tla validates every record against the algorithm's contract on independent value sequences (equality for determined algorithms; sorted-prefix/permutation/partition/unique/remove postconditions for the others) and the Frame condition (every cell outside the view unchanged).",
+    note="bounded: roots D<=3, extents 0..3, views one operation away (two in thorough), ranges of <= 9 items, values 0..2, 2 data seeds (12 thorough); heap corruption caused by a wild write is attributed to the running case.",
+    ref="DESIGN.md section 5 C03", tech="TLC-generated cases executed in the implementation; recorded traces validated by the TLA+ monitor Algorithms.tla"),
 }
 
 props = [json.loads(l) for l in open(os.path.join(V, "properties.jsonl"))]
